@@ -492,4 +492,157 @@ theorem searchTry_ne_fuel (m : NodeMap) (entry : Nat × Nat) (dist : Nat → Opt
       · exact ih
       · exact searchAttempt_ne_fuel _ _ _ _ _
 
+/-! ### totality: with a live entry point and computable distances the search answers, non-empty -/
+
+theorem insDesc_ne_nil (e : Ent) (l : List Ent) : insDesc e l ≠ [] := by
+  cases l with
+  | nil => simp [insDesc]
+  | cons x r => simp only [insDesc]; split <;> simp
+
+theorem visitNbr_results_ne {get : Nat → Option Node} {dist : Nat → Option Nat} {ef : Nat} (hef : 0 < ef)
+    {s : LState} (v : Nat) (h : s.results ≠ []) : (visitNbr get dist ef s v).results ≠ [] := by
+  unfold visitNbr
+  split
+  · exact h
+  · dsimp only
+    split
+    · exact h
+    · split
+      · exact h
+      · split
+        · exact h
+        · rename_i top rest hres
+          split
+          · dsimp only
+            split
+            · rename_i d _ _ _ hlen
+              intro hnil
+              have hl := length_insDesc (d, v) s.results
+              have : (insDesc (d, v) s.results).tail.length = 0 := by rw [hnil]; rfl
+              rw [List.length_tail] at this
+              omega
+            · exact insDesc_ne_nil _ _
+          · exact h
+
+theorem foldl_visitNbr_results_ne {get : Nat → Option Node} {dist : Nat → Option Nat} {ef : Nat} (hef : 0 < ef)
+    (vs : List Nat) : ∀ {s : LState}, s.results ≠ [] → (vs.foldl (visitNbr get dist ef) s).results ≠ [] := by
+  induction vs with
+  | nil => intro s h; exact h
+  | cons v r ih => intro s h; exact ih (visitNbr_results_ne hef v h)
+
+theorem layerLoop_results_ne {get : Nat → Option Node} {dist : Nat → Option Nat} {layer ef : Nat} (hef : 0 < ef) :
+    ∀ (fuel : Nat) {s s' : LState}, s.results ≠ [] → layerLoop get dist layer ef fuel s = some s' → s'.results ≠ [] := by
+  intro fuel
+  induction fuel with
+  | zero => intro s s' _ h; simp [layerLoop] at h
+  | succ n ih =>
+    intro s s' hne h
+    unfold layerLoop at h
+    split at h
+    · simp only [Option.some.injEq] at h; subst h; exact hne
+    · split at h
+      · simp only [Option.some.injEq] at h; subst h; exact hne
+      · rename_i d p cs _ _
+        have hpop : ({ s with cands := cs } : LState).results ≠ [] := hne
+        exact ih (foldl_visitNbr_results_ne hef _ hpop) h
+
+theorem searchLayer_total {m : NodeMap} {dist : Nat → Option Nat} {ep : Nat} (layer ef : Nat)
+    (hep : ep ∈ keys m) (hd : (dist ep).isSome = true) :
+    ∃ res, searchLayer m dist ep layer ef = .ok res ∧ res ≠ [] := by
+  have hget : (getNode m ep).isSome = true := getNode_isSome_iff.mpr hep
+  have hnf := searchLayer_ne_fuel m dist ep layer ef
+  unfold searchLayer at hnf ⊢
+  dsimp only at hnf ⊢
+  cases hg : getNode m ep with
+  | none => simp [hg] at hget
+  | some nd =>
+    simp only [hg] at hnf ⊢
+    cases hde : dist ep with
+    | none => simp [hde] at hd
+    | some d0 =>
+      simp only [hde] at hnf ⊢
+      cases hl : layerLoop (getNode m) dist layer (max ef 1) (m.length + 1) ⟨[ep], [(d0, ep)], [(d0, ep)]⟩ with
+      | none => simp [hl] at hnf
+      | some s =>
+        refine ⟨s.results.reverse, rfl, ?_⟩
+        have := layerLoop_results_ne (by omega : 0 < max ef 1) _ (by simp) hl
+        simpa using this
+
+theorem descend_total {m : NodeMap} {dist : Nat → Option Nat} (hd : ∀ i ∈ keys m, (dist i).isSome = true) :
+    ∀ (ls : List Nat) (cur cd : Nat), cur ∈ keys m →
+      ∃ c d, descend m dist ls cur cd = .ok (c, d) ∧ c ∈ keys m := by
+  intro ls
+  induction ls with
+  | nil => intro cur cd hc; exact ⟨cur, cd, rfl, hc⟩
+  | cons l r ih =>
+    intro cur cd hc
+    obtain ⟨near, hnear, _⟩ := searchLayer_total (m := m) (dist := dist) l 1 hc (hd cur hc)
+    unfold descend
+    rw [hnear]
+    dsimp only
+    cases near with
+    | nil => exact ih cur cd hc
+    | cons e rest =>
+      obtain ⟨d, id⟩ := e
+      have hid : id ∈ keys m :=
+        getNode_isSome_iff.mp ((searchLayer_sound hnear).live (d, id) (List.mem_cons_self ..))
+      dsimp only
+      split
+      · exact ih id d hid
+      · exact ih cur cd hc
+
+theorem searchAttempt_total {m : NodeMap} {entry : Nat × Nat} {dist : Nat → Option Nat} (k efSearch : Nat)
+    (he : entry.1 ∈ keys m) (hd : ∀ i ∈ keys m, (dist i).isSome = true) (hk : 0 < k) :
+    ∃ res, searchAttempt m entry dist k efSearch = .ok res ∧ res ≠ [] := by
+  obtain ⟨c, d, hdesc, hc⟩ := descend_total hd (layersDown entry.2) entry.1 f32MaxKey he
+  obtain ⟨res, hres, hne⟩ := searchLayer_total (m := m) (dist := dist) 0 (max efSearch (min k maxEfSearch)) hc (hd c hc)
+  unfold searchAttempt
+  rw [hdesc]
+  dsimp only
+  rw [hres]
+  refine ⟨res.take k, rfl, ?_⟩
+  cases res with
+  | nil => exact absurd rfl hne
+  | cons x r =>
+    cases k with
+    | zero => omega
+    | succ k => simp
+
+theorem searchTry_total {m : NodeMap} {entry : Nat × Nat} {dist : Nat → Option Nat} (k efSearch : Nat)
+    (hne : m ≠ []) (he : entry.1 ∈ keys m) (hd : ∀ i ∈ keys m, (dist i).isSome = true) (hk : 0 < k) :
+    ∀ more, ∃ res, searchTry m entry dist k efSearch more = .ok res ∧ res ≠ [] := by
+  intro more
+  obtain ⟨res, hres, hr⟩ := searchAttempt_total (m := m) (entry := entry) (dist := dist) k efSearch he hd hk
+  have hemp : m.isEmpty = false := by
+    cases m with
+    | nil => exact absurd rfl hne
+    | cons _ _ => rfl
+  cases more with
+  | zero =>
+    unfold searchTry
+    simp only [hemp, Bool.false_eq_true, if_false]
+    exact ⟨res, hres, hr⟩
+  | succ n =>
+    unfold searchTry
+    simp only [hemp, Bool.false_eq_true, if_false, hres]
+    exact ⟨res, rfl, hr⟩
+
+/-- distinct elements drawn from a list are at most as many as the list is long -/
+theorem nodup_subset_length {l : List Nat} : ∀ {l' : List Nat}, l.Nodup → (∀ x ∈ l, x ∈ l') → l.length ≤ l'.length := by
+  induction l with
+  | nil => intro l' _ _; simp
+  | cons x r ih =>
+    intro l' hn hs
+    rw [List.nodup_cons] at hn
+    have hx : x ∈ l' := hs x (List.mem_cons_self ..)
+    have hsub : ∀ y ∈ r, y ∈ l'.erase x := by
+      intro y hy
+      have hne : y ≠ x := fun e => hn.1 (e ▸ hy)
+      exact (List.mem_erase_of_ne hne).mpr (hs y (List.mem_cons_of_mem _ hy))
+    have := ih hn.2 hsub
+    rw [List.length_erase_of_mem hx] at this
+    have hpos : 0 < l'.length := List.length_pos_of_mem hx
+    simp only [List.length_cons]
+    omega
+
 end AndaVerif.Hnsw
